@@ -344,6 +344,10 @@ structure SabaConfig where
   copyInside : Bool := false
   /-- source variant of part1 (35adc5c): `is_synchronized = 1` after `from_inertial` (see `Config.p1fix`) -/
   p1fix : Bool := false
+  /-- source variant of part1: as found, `safe_mode || recalculate…` runs `from_inertial` on the
+      particles as they are — stale if the integrator is unsynchronised (finding
+      C09:saba-part1-recalculates-unsynchronised); repaired: synchronize (and warn) first. -/
+  p1sync : Bool := false
   deriving DecidableEq, Repr, Inhabited
 
 def sabaTypeOk (t : Nat) : Bool :=
@@ -380,8 +384,13 @@ def sabaSyncOps (c : SabaConfig) (f : Flags) : List Prim × Flags :=
 def sabaPart1Ops (c : SabaConfig) (f : Flags) : List Prim × Flags :=
   let row := c.type % 0x100
   let f1 := initF f
-  let (p2, f2) := if c.safe || f1.recalc then ([Prim.fromInertial], { f1 with recalc := false, isSync := c.p1fix || f1.isSync })
-                  else ([], f1)
+  let (p2, f2) :=
+    if c.safe || f1.recalc then
+      -- repaired source (`p1sync`): synchronize first when unsynchronised, as WHFast's part1 does
+      let (ps, fs) := if c.p1sync && !f1.isSync then ((sabaSyncOps c f1).1 ++ [Prim.warn], (sabaSyncOps c f1).2)
+                      else ([], f1)
+      (ps ++ [Prim.fromInertial], { fs with recalc := false, isSync := c.p1fix || fs.isSync })
+    else ([], f1)
   let drift :=
     if c.type ≥ 0x100 then
       sabaCorrOps c.type (if f2.isSync then 1 else 2) ++ [.kepler (.sabaC row 0 1), .com (.sabaC row 0 1)]
